@@ -45,9 +45,10 @@ impl<R: Round> Context<R> {
             panic_root_negative()
         }
 
-        // adjust the signifcand so that the exponent is even
+        // adjust the signifcand so that the exponent is even and the root has exactly
+        // `precision` digits (the scaled significand has 2 * precision or 2 * precision - 1 digits)
         let digits = x.digits() as isize;
-        let shift = self.precision as isize * 2 - (digits & 1) + (x.exponent & 1) - digits;
+        let shift = self.precision as isize * 2 - digits - ((x.exponent - digits) & 1);
         let (signif, low, low_digits) = if shift > 0 {
             (shl_digits::<B>(&x.significand, shift as usize), IBig::ZERO, 0)
         } else {
@@ -60,7 +61,7 @@ impl<R: Round> Context<R> {
         let root = Sign::Positive * root;
         let exp = (x.exponent - shift) / 2;
 
-        let res = if rem.is_zero() {
+        let res = if rem.is_zero() && low.is_zero() {
             Approximation::Exact(root)
         } else {
             let adjust = R::round_low_part(&root, Sign::Positive, || {
